@@ -275,7 +275,7 @@ func readItem(r io.Reader, it sItem) error {
 
 func TestStreamRoundTrip(t *testing.T) {
 	const check = "stream_roundtrip"
-	stats.Rule(check, "rapid draws a sequence of stream items (Write/Read[T] for bool, 8..64-bit ints and [32|36|38]byte, WriteBytes/ReadBytes, ...WithSize for all four prefix widths, WriteObject/ReadObject(+WithSize) with the typeutils codecs, WriteCollection/ReadCollection/PeekSize with nested items) written to a stream.ByteBuffer and read back through every reader of the family {ByteBuffer.Reader, bytes.Reader, iotest.OneByteReader, HalfReader, DataErrReader, drawn chunk-size schedule incl. zero-length reads}; each item must be read back equal and the reader must end exactly at the written length. Distinct by item list; non-trivial = at least one item longer than one byte is split by a reader (every case: OneByteReader) and the sequence has >= 2 item kinds")
+	stats.Rule(check, "rapid draws a sequence of stream items (Write/Read[T] for bool, 8..64-bit ints and [32|36|38]byte, WriteBytes/ReadBytes, ...WithSize for all four prefix widths, WriteObject/ReadObject(+WithSize) with the typeutils codecs, WriteCollection/ReadCollection/PeekSize with nested items) written to a stream.ByteBuffer (empty; in half of the cases also a pre-sized one and one rewritten from the start over 1..300 existing bytes, which must give the same bytes and end offset) and read back through every reader of the family {ByteBuffer.Reader, bytes.Reader, iotest.OneByteReader, HalfReader, DataErrReader, drawn chunk-size schedule incl. zero-length reads}; each item must be read back equal and the reader must end exactly at the written length. Distinct by item list; non-trivial = at least one item longer than one byte is split by a reader (every case: OneByteReader) and the sequence has >= 2 item kinds")
 	rapid.Check(t, func(rt *rapid.T) {
 		n := rapid.IntRange(1, 6).Draw(rt, "n")
 		items := make([]sItem, n)
@@ -293,6 +293,32 @@ func TestStreamRoundTrip(t *testing.T) {
 		}
 		data, _ := buf.Bytes()
 		data = append([]byte{}, data...)
+		// the same items written over existing content (a pre-sized ByteBuffer, a buffer that already holds
+		// data and is rewritten from the start) must produce the same bytes and leave the writer directly
+		// behind them: what follows a collection must land behind its last element, wherever the writer ends
+		prefill := rapid.OneOf(rapid.Just(0), rapid.IntRange(1, 300)).Draw(rt, "prefill")
+		if prefill > 0 {
+			junk := bytes.Repeat([]byte{0xAA}, prefill)
+			over := stream.NewByteBuffer()
+			_, _ = over.Write(junk)
+			_, _ = over.Seek(0, io.SeekStart)
+			for wi, w := range []*stream.ByteBuffer{stream.NewByteBuffer(prefill), over} {
+				name := []string{"NewByteBuffer(n)", "rewritten buffer"}[wi]
+				for _, it := range items {
+					if err := writeItem(w, it); err != nil {
+						stats.Violation(check, map[string]any{"items": fmt.Sprint(items), "writer": name, "prefill": prefill, "problem": "write failed: " + err.Error()})
+						rt.Fatalf("writing %s into %s failed: %v", it, name, err)
+					}
+				}
+				end, err := stream.Offset(w)
+				all, _ := w.Bytes()
+				if err != nil || int(end) != len(data) || int(end) > len(all) || !bytes.Equal(all[:end], data) {
+					stats.Violation(check, map[string]any{"items": fmt.Sprint(items), "writer": name, "prefill": prefill, "bytes": hex.EncodeToString(data), "got": hex.EncodeToString(all), "end": end, "problem": "items written over existing content differ from the items written to an empty buffer"})
+					rt.Fatalf("%s (prefill %d): offset %d, bytes %x; written to an empty buffer: %x", name, prefill, end, all, data)
+				}
+			}
+			stats.Label(check, "writer:over_existing_content")
+		}
 		sched := rapid.SliceOfN(rapid.IntRange(0, 9), 1, 6).Draw(rt, "sched")
 		nonzero := false
 		for _, s := range sched {
